@@ -19,3 +19,16 @@ MUTANTS["C06"] = [
     ("insert_weight_ignored", "lentil/field.py", "out[out_slice] += (field.data[field_slice] * weight)", "out[out_slice] += (field.data[field_slice])"),
     ("mul_scalar_offset", "lentil/field.py", "            b_data = np.broadcast_to(b_data, a_data.shape)\n            b_offset = a_offset", "            b_data = np.broadcast_to(b_data, a_data.shape)"),
 ]
+MUTANTS["C20"] = [
+    ("pad_grow_center", "lentil/util.py", "        rmin1 = shape[0]//2 - array.shape[0+offset]//2\n", "        rmin1 = (shape[0] - array.shape[0+offset])//2\n"),
+    ("pad_crop_center_col", "lentil/util.py", "        cmin0 = array.shape[1+offset]//2 - shape[1]//2\n", "        cmin0 = (array.shape[1+offset] - shape[1])//2\n"),
+    ("pad_cube_axis", "lentil/util.py", "        cmax0 = array.shape[1+offset]\n", "        cmax0 = array.shape[1]\n"),
+    ("mesh_half", "lentil/helper.py", "np.arange(nr) - np.floor(nr/2.0) - shift[0]", "np.arange(nr) - nr/2.0 - shift[0]"),
+    ("subarray_center", "lentil/util.py", "    rmin = a.shape[0]//2 - shape[0]//2 + shift[0]", "    rmin = (a.shape[0] - shape[0])//2 + shift[0]"),
+    ("slice_offset_center", "lentil/helper.py", "        slice_center = slice_shape//2", "        slice_center = (slice_shape-1)//2"),
+    ("hex_ring_size", "lentil/segmented.py", "(rings * 2) * seg_gap + pad * 2", "(rings * 2) * seg_gap + pad"),
+    ("hex_edge_inclusive", "lentil/shape.py", "slc[rho >= inner_radius] = 0", "slc[rho > inner_radius] = 0"),
+    ("rebin_cube_axis", "lentil/util.py", "rebinned_shape = (img.shape[0], img.shape[1]//factor, img.shape[2]//factor)", "rebinned_shape = (img.shape[0], img.shape[2]//factor, img.shape[1]//factor)"),
+    ("boundary_thresh", "lentil/util.py", "    x = (x > threshold)\n", "    x = (x >= threshold)\n"),
+    ("circle_shift_axis", "lentil/shape.py", "np.square(rr - shift[0]) + np.square(cc - shift[1])", "np.square(rr - shift[1]) + np.square(cc - shift[0])"),
+]
